@@ -38,12 +38,47 @@ def IKey.toKey : IKey → Key
   | .int n => .int n
   | .str s => .str s
 
-/-- non-array values: null, an integer, an object handle (`*ClassValue`) -/
+/-- non-array values: null, an integer, an object handle (`*ClassValue`), a string (its
+characters as code points). A scalar is a VALUE here: the model has no identity for the
+`*StringValue` / `*IntValue` object that carries it, so nothing in the model can change a
+scalar "in place" — the only way an element gets another scalar is a store (`setIdx`), which
+goes through `storeSlot` (fresh cell). That is the design of the implementation too (copies
+share the cells and the value objects of scalar elements *because* both are never mutated);
+an implementation that appends to the shared `*StringValue` (`ls.Value += rs.Value`) is
+outside what this model can express and shows up as a broken correspondence. -/
 inductive Scalar
   | null
   | int (n : Int)
   | inst (h : Nat)
+  | str (cs : List Nat)
 deriving DecidableEq, Repr, Inhabited
+
+/-- decimal digits of an integer as code points (`IntValue.AsString`) -/
+def intChars (n : Int) : List Nat :=
+  match n with
+  | .ofNat k => (Nat.toDigits 10 k).map Char.toNat
+  | .negSucc k => 45 :: (Nat.toDigits 10 (k + 1)).map Char.toNat
+
+/-- the pure function a compound assignment computes: `.=` (`concatPHPValues`), `+=`, `*=`
+on integers, `??=` -/
+inductive Upd
+  | concat (sfx : List Nat)
+  | add (n : Int)
+  | mul (n : Int)
+  | coalesce (n : Int)
+deriving DecidableEq, Repr
+
+/-- new value from the old one; `none` = a combination the correspondence does not use -/
+def Upd.apply : Upd → Scalar → Option Scalar
+  | .concat sfx, .str cs => some (.str (cs ++ sfx))
+  | .concat sfx, .int n => some (.str (intChars n ++ sfx))
+  | .concat sfx, .null => some (.str sfx)
+  | .add k, .int n => some (.int (n + k))
+  | .add k, .null => some (.int k)
+  | .mul k, .int n => some (.int (n * k))
+  | .coalesce k, .null => some (.int k)
+  | .coalesce _, s => some s
+  | _, _ => none
 
 /-- a `data.Value` as a variable / property / slot holds it: a scalar, or a pointer to
 the `*ArrayValue` with identity `aid` whose `List` is `kids`
@@ -436,6 +471,7 @@ inductive Lit
   | null
   | arr (items : List (Key × Lit))
   | rd (p : Place)
+  | str (cs : List Nat)
 deriving Repr
 
 mutual
@@ -446,6 +482,7 @@ statement. -/
 def Lit.alloc (cfg : Cfg) (s : St) : Lit → Nat → Option (Val × Nat)
   | .int n, nx => some (.sc (.int n), nx)
   | .null, nx => some (.sc .null, nx)
+  | .str cs, nx => some (.sc (.str cs), nx)
   | .rd p, nx => (readPlace s p).map (·, nx)
   | .arr items, nx =>
     match allocL cfg s items (nx + 1) with
@@ -476,6 +513,14 @@ inductive RV
       pointer, no copy. The value reaches the next by-value boundary with no variable in
       between. -/
   | call (p : Place)
+  /-- a string literal -/
+  | str (cs : List Nat)
+  /-- the right-hand side of a compound assignment `place op= c` (`assignIndexConcat`,
+      `BinaryAssign…`): the scalar at `place` is READ, the new scalar is COMPUTED from it
+      (`concatPHPValues`, `+`, `*`, `??`), and the statement then stores that new value like
+      any other (`$b[k] .= 'x'` is `setIdx b k (.upd (.idx b k) (.concat x))`). Nothing is
+      written while the right-hand side is evaluated. -/
+  | upd (p : Place) (u : Upd)
 deriving Repr
 
 def RV.isCall : RV → Bool
@@ -488,6 +533,11 @@ def evalRV (cfg : Cfg) (s : St) : RV → Option (Val × St)
   | .lit l => (l.alloc cfg s s.next).map (fun (v, n) => (v, { s with next := n }))
   | .rd p => (readPlace s p).map (·, s)
   | .call p => (readPlace s p).map (·, s)
+  | .str cs => some (.sc (.str cs), s)
+  | .upd p u =>
+    match readPlace s p with
+    | some (.sc sv) => (u.apply sv).map (fun r => (.sc r, s))
+    | _ => none
 
 /-! ### operations (one script statement each) -/
 
